@@ -12,6 +12,23 @@ check('C13', 'property-based testing: Hypothesis-driven generated pairs + exhaus
       'Trusted: Hypothesis, CPython; the model reads categories by field access only. Values mixing the two feature systems inside one category are not generated.',
       'DESIGN.md section 7 C13')
 
+check('C05', 'property-based testing: value->text->value round trip and text-variant metamorphic relation (Hypothesis tapes + exhaustive bounded enumeration + sweep of every shipped category string), with an independent reader as second oracle',
+      'Exploration: every generated category value (both feature systems, slashes / \\ |, exhaustive up to 2 slashes over a reduced alphabet, random to depth 4) is printed and parsed back; texts with redundant round/angle brackets and blanks must read to the same value and re-print canonically; texts with one needed bracket pair removed must be rejected; all ~104k category string occurrences of the shipped model files and tests/cats*.txt round-trip. A round-trip/metamorphic oracle is exactly what the statement asks for.',
+      'Trusted: the harness reader of the documented text grammar (cross-checked against Category.parse on every variant). Blanks are ASCII spaces between tokens.',
+      'DESIGN.md section 7 C05')
+check('C06', 'property-based testing against a reference model: statement-level matcher over category models vs Unification, Hypothesis-generated pattern instantiations with perturbations',
+      'Exploration: for every pattern pair the live grammars construct (recorded at run time) and bounded random pattern pairs, inputs are built by exact instantiation plus 0-2 perturbations or at random; the returned verdict is compared with a matcher transcribed from the statement, bindings are validated, post-failure reads and second calls must raise.',
+      'Three-part features with variables on both sides in different slots are not fixed by the statement: counted, not judged. Pattern variables occur at most once per side.',
+      'DESIGN.md section 7 C06')
+check('C03', 'property-based testing against schema tables: exhaustive inventory-pair sweep + rule-closure pairs + bounded enumeration + Hypothesis schema instantiations with perturbations; soundness and completeness oracles',
+      'Exploration: every result of en.apply_binary_rules on all ordered pairs of the shipped en+rebank inventories (exhaustive), closure and bounded-alphabet pairs and perturbed schema instantiations must satisfy the schema its label names (evaluated on nb-erased inputs, head left), and every schema whose premises hold with identical matched parts must yield exactly its result.',
+      'Schema tables are the harness\'s reading of the statement; conjunction over feature-blind NP\\NP is neither required nor forbidden; bare-N/NP restriction enforced only when both composed-over categories are bare.',
+      'DESIGN.md section 7 C03')
+check('C04', 'property-based testing against schema tables: exhaustive targets.ja pair sweep + closure + bounded enumeration + Hypothesis instantiations; unary labels against the statement\'s shape table',
+      'Exploration: every result of ja.apply_binary_rules over all ordered pairs of targets.ja (exhaustive), closure/bounded pairs and perturbed instantiations of the ten schemas and SSEQ must be licensed by the schema its symbol names (head right, crossed composition keeps the secondary slash), with completeness on identical parts; every unary_rules.ja left-hand side and bounded synthetic inputs get the label their shape requires.',
+      'Mixed-side three-part feature variables and unary shapes the statement does not name are counted as unspecified, not judged.',
+      'DESIGN.md section 7 C04')
+
 ALL = ['C%02d' % i for i in range(1, 21)]
 PENDING_REASON = 'check not built yet in this round (planned, see DESIGN.md section 7); not claimed until its command exists and is quiet on the unchanged tree'
 
